@@ -539,13 +539,31 @@ def run(ctx):
                 "mj_name2id for every stored name, the empty string, prefixes, extensions, colliding absent strings, "
                 "names of other types, for every mjtObj value and out-of-enum types; a case is distinct by its line; "
                 "non-trivial = a name2id/id2name call or a model dump")
-    # T: regenerate the tables from the source of this tree
-    r = common.sh([sys.executable, TRANSLATOR], timeout=300)
-    ctx.oblige("translator c34_tables (orders of _getnumadr / CopyNames / nnames_map, loop templates)", "translator",
-               r.returncode == 0, (r.stdout + r.stderr)[-1500:])
-    # P
-    ctx.lean_props(THEOREMS)
-    drv = ctx.driver("drv_c34")
+    # T: regenerate the tables from the source of this tree, then P: build the theorems and the driver on them.
+    # lean/MjProof/Gen is shared: translate/regen_all.py (run by setup and by other checks) may rewrite
+    # NameOrder.lean from another tree concurrently, so the file is compared with this tree's tables after the
+    # builds and the step is repeated if it was replaced meanwhile.
+    gen_path = os.path.join(common.LEAN, "MjProof", "Gen", "NameOrder.lean")
+    drv = None
+    for attempt in range(4):
+        n_obl = len(ctx.obligations)
+        want = common.sh([sys.executable, TRANSLATOR, "--stdout"], timeout=300)
+        r = common.sh([sys.executable, TRANSLATOR], timeout=300)
+        ctx.oblige("translator c34_tables (orders of _getnumadr / CopyNames / nnames_map, loop templates)", "translator",
+                   r.returncode == 0, (r.stdout + r.stderr)[-1500:])
+        ctx.lean_props(THEOREMS)
+        drv = ctx.driver("drv_c34")
+        if r.returncode != 0 or want.returncode != 0:
+            break   # refused: nothing was written for this tree
+        try:
+            same = open(gen_path).read() == want.stdout
+        except OSError:
+            same = False
+        if same:
+            break
+        if attempt == 3:
+            raise common.Infra("lean/MjProof/Gen/NameOrder.lean keeps being rewritten by another process")
+        del ctx.obligations[n_obl:]
     impl = ctx.harness("harness/c/c34_name.c", "c34_name")
     enum = load_enum(ctx)
     oracle = Oracle(ctx, enum)
